@@ -24,6 +24,7 @@ SOFTWARE.
 Representation of the hardware of an accelerator
 """
 
+from copy import deepcopy
 from typing import Dict, Set, Type, TypeVar
 
 from teaal.ir.component import *
@@ -220,7 +221,9 @@ class Hardware:
             raise ValueError("Unknown class: " + local["class"])
 
         name = local["name"]
-        binding = self.bindings.get_component(name)
+        # Components add defaults and expanded bindings; work on a copy so
+        # that the caller's Bindings object is left untouched
+        binding = deepcopy(self.bindings.get_component(name))
 
         component = class_(name, num_instances, local["attributes"], binding)
         self.components[component.get_name()] = component
